@@ -4,6 +4,7 @@ import (
 	"fmt"
 	"go/token"
 	"go/types"
+	"os"
 	"strings"
 
 	"golang.org/x/tools/go/ssa"
@@ -866,6 +867,7 @@ func (x *c13) checkO8() {
 	}
 	var regFns []*ssa.Function
 	bypass := ""
+	otherBypass := ""
 	for _, f := range c.ModFuncs {
 		avoid := map[*ssa.BasicBlock]bool{}
 		eachInstr(f, func(b *ssa.BasicBlock, _ int, ins ssa.Instruction) {
@@ -893,6 +895,48 @@ func (x *c13) checkO8() {
 			if !failing && bypass == "" {
 				bypass = fmt.Sprintf("%s can return without an error at %s without having assigned the flag", shortFn(f), posOf(c, ri.Point()))
 			}
+			// the one bypass a random instance id makes harmless is the answer without a Location
+			// (200 OK, profile replaced): is this exit reachable any other way?
+			if !failing {
+				var from, to *ssa.BasicBlock
+				for _, b := range f.Blocks {
+					if len(b.Instrs) == 0 || len(b.Succs) != 2 {
+						continue
+					}
+					iff, isIf := b.Instrs[len(b.Instrs)-1].(*ssa.If)
+					if !isIf {
+						continue
+					}
+					bo, isBo := iff.Cond.(*ssa.BinOp)
+					if !isBo || (bo.Op != token.EQL && bo.Op != token.NEQ) {
+						continue
+					}
+					s, isEmpty := constString(bo.Y)
+					if !isEmpty || s != "" {
+						continue
+					}
+					isLoc := false
+					for d := range depSet(f, bo.X) {
+						if fa, ok := d.(*ssa.FieldAddr); ok && fieldName(fa) == "Location" {
+							isLoc = true
+						}
+					}
+					if !isLoc {
+						continue
+					}
+					from, to = b, b.Succs[0]
+					if bo.Op == token.NEQ {
+						to = b.Succs[1]
+					}
+				}
+				if os.Getenv("CHFCHECK_DEBUG") != "" {
+					fmt.Fprintf(os.Stderr, "O8: from=%v at=%v\n", from, ri.At)
+				}
+				// (a return fed directly by the test's block leaves over the no-Location edge itself)
+				if from == nil || (ri.At != from && reachableFrom(f.Blocks[0], from, to, avoid)[ri.At]) {
+					otherBypass = fmt.Sprintf("%s can report success at %s without having assigned OAuth2Required on a path other than the answer without a Location (the NRF's 200 OK for an instance it already holds): a first registration (201 Created) that takes this path leaves the flag false although the NRF declared OAuth2 mandatory, and every route stays open", shortFn(f), posOf(c, ri.Point()))
+				}
+			}
 		}
 	}
 	if len(regFns) == 0 {
@@ -900,6 +944,10 @@ func (x *c13) checkO8() {
 	}
 	if bypass == "" {
 		r.proven("C13.O8", "every success exit assigns the flag", "", "no exit of the registration function that reports success bypasses the assignment of OAuth2Required")
+		return
+	}
+	if otherBypass != "" {
+		r.viol("C13.O8", "success exit that skips the flag", "", otherBypass)
 		return
 	}
 	isReg := func(f *ssa.Function) bool {
